@@ -260,6 +260,22 @@ def check_objective_atomic(ctx) -> None:
         ctx.bad("C03.exact", fn, enclosing_stmt(late[0]), "a reaction's variables are looked up after the objective has been replaced: for a reaction that is not in the model this raises with the objective already wiped and no undo registered (inside or outside a context)")
     else:
         ctx.ok("C03.exact", fn, enclosing_stmt(lookups[0]), "every variable is resolved before the objective is replaced: a bad key leaves the objective alone")
+    # inside a context every completed call has registered the reset: callers (FVA, minimal_medium, the samplers)
+    # assign a fresh objective in their context and then edit *that* objective in place, relying on the reset
+    # to bring the caller's objective back - also when the new objective happens to equal the old one
+    regs = [n for n in walk_local(fn.node) if isinstance(n, ast.Call) and ctx.eff.is_registration(fn, n) and not any(isinstance(a, ast.FunctionDef) and a is not fn.node for a in ancestors(n))]
+    if not regs:
+        ctx.bad("C03.exact", fn, fn.node, "set_objective no longer registers the reset of the objective")
+        return
+    reg_nodes = set()
+    for r in regs:
+        reg_nodes |= {x for x in g.node_containing(r) if x.kind != "with_exit"}
+    guard = _ctx_guard_filter(ctx, fn)
+    w = g.reaches_without([g.exit], lambda n: n in reg_nodes, edge_ok=lambda a, b, l: l != "exc" and guard(a, b, l))
+    if w is not None:
+        ctx.bad("C03.exact", fn, enclosing_stmt(regs[0]), "inside a context set_objective can complete without registering the reset of the objective: the caller's later in-place edits of the objective it believes to be its own (FVA, minimal_medium, sampling warm-up) then change the objective that was there before and are not undone", path=describe_path(w))
+    else:
+        ctx.ok("C03.exact", fn, enclosing_stmt(regs[0]), "inside a context every completed call registers the reset")
 
 
 # ------------------------------------------------------------------------------ undo entries do no more than undo
